@@ -1,4 +1,5 @@
 import Bch.Props.C08Gcs
+import Bch.Props.C08Addr
 import Bch.Proofs.Checked
 import Bch.Proofs.CheckedBech32
 /-
@@ -190,7 +191,7 @@ example : (⟨[], 1, 0, 0⟩ : Bloom.Msg).bits.length ≤ 36000 ∧ (⟨[], 1, 0
 example : (⟨[0], 2, 5, 0⟩ : Bloom.Msg).bits.length ≤ 36000 := by decide
 example : (⟨List.replicate 36000 0, 50, 0, 0⟩ : Bloom.Msg).bits.length ≤ 36000 := by
   show (List.replicate 36000 (0 : UInt8)).length ≤ 36000
-  rw [List.length_replicate]; omega
+  rw [List.length_replicate]
 
 /-! ## 5. merkle `NewMerkleBlockFromMsg` / `ExtractMatches` / `traverseAndExtract` -/
 
@@ -306,7 +307,7 @@ theorem C08_gcs_alloc (f : Gcs.Filter) :
       Gcs.decodeAll f.p (fuel + 1) (Gcs.unpackBits f.data) 0 = Gcs.decodeAll f.p fuel (Gcs.unpackBits f.data) 0) := by
   refine ⟨?_, ?_, fun fuel h => decodeAll_fuel_suffices f.p fuel _ 0 h⟩
   · exact Nat.le_trans (decodeAll_length_le f.p _ (Gcs.unpackBits f.data) 0)
-      (by rw [unpackBits_length]; exact Nat.le_refl _)
+      (by rw [unpackBits_length] <;> try exact Nat.le_refl _)
   · unfold sizeHint; omega
 
 -- the degenerate filter of the defect report: N = 2^32-1 declared, one data byte
